@@ -307,7 +307,7 @@ void Socket::setStatusCode(int statusCode, const QByteArray &statusReason)
 
 void Socket::setHeader(const QByteArray &name, const QByteArray &value, bool replace)
 {
-    if (replace || d->responseHeaders.count(name)) {
+    if (replace || !d->responseHeaders.count(name)) {
         d->responseHeaders.replace(name, value);
     } else {
         d->responseHeaders.replace(name, d->responseHeaders.value(name) + ", " + value);
